@@ -86,10 +86,10 @@ def laneOff (t : TIdx) (j : Nat) : Nat := if t.tag = Tag.PACKED then t.off + j e
 def bcastOff (rows cols oc o : Nat) : Nat :=
   (if rows = 1 then 0 else o / oc) * cols + (if cols = 1 then 0 else o % oc)
 
-/-- operand shapes the enumerator handles correctly: broadcast-compatible with the `(R, oc)` result and
-    not the `(1,1)` operand of a result with several rows (known finding `binary.bcast-1x1`) -/
+/-- operand shapes the enumerator handles: broadcast-compatible with the `(R, oc)` result
+    (each extent equals the result's or is 1; this includes a `(1,1)` operand) -/
 def OperandOK (R oc rows cols : Nat) : Prop :=
-  (cols = oc ∨ cols = 1) ∧ (rows = R ∨ rows = 1) ∧ ¬ (rows = 1 ∧ cols = 1 ∧ 1 < R)
+  (cols = oc ∨ cols = 1) ∧ (rows = R ∨ rows = 1)
 
 theorem col_div_mod (c r oc : Nat) (h : c < oc) : (c + r * oc) / oc = r ∧ (c + r * oc) % oc = c := by
   have := div_mod_of_row r c oc h
@@ -101,7 +101,7 @@ theorem binary2dOperand_lane (N r sc oc R rows cols j : Nat) (hN : 0 < N) (hr : 
     (hj : j < (if sc < oc / N then N else 1)) :
     laneOff (binary2dOperand N r sc oc (decide (sc ≥ oc / N)) rows cols) j
       = bcastOff rows cols oc ((if sc < oc / N then sc * N else oc / N * N + (sc - oc / N)) + j + r * oc) := by
-  obtain ⟨hc, hrw, hno⟩ := hok
+  obtain ⟨hc, hrw⟩ := hok
   have hoc : oc = oc / N * N + oc % N := by
     have := Nat.div_add_mod oc N; rw [Nat.mul_comm] at this; omega
   by_cases hp : sc < oc / N
@@ -118,9 +118,9 @@ theorem binary2dOperand_lane (N r sc oc R rows cols j : Nat) (hN : 0 < N) (hr : 
     by_cases hc1 : cols = 1
     · simp only [hc1, if_true, laneOff, Tag.BROADCAST, Tag.PACKED]
       by_cases hr1 : rows = 1
-      · have : ¬ (1 < R) := fun h => hno ⟨hr1, hc1, h⟩
-        simp [hr1]; omega
       · simp [hr1]
+      · have hgt : rows > 1 := by rcases hrw with h | h <;> omega
+        simp [hr1, hgt]
     · have hco : cols = oc := by rcases hc with h | h; exact h; exact absurd h hc1
       simp only [hc1, if_false, laneOff, Tag.PACKED, if_true]
       by_cases hr1 : rows = 1
@@ -146,9 +146,9 @@ theorem binary2dOperand_lane (N r sc oc R rows cols j : Nat) (hN : 0 < N) (hr : 
     · have h0 : (1 : Nat) / N = 0 := Nat.div_eq_of_lt hN1
       simp only [hc1, h0, hs, decide_true, Bool.true_and, Nat.zero_le, ge_iff_le, if_true, laneOff, Tag.SCALAR, Tag.PACKED]
       by_cases hr1 : rows = 1
-      · have : ¬ (1 < R) := fun h => hno ⟨hr1, hc1, h⟩
-        simp [hr1]; omega
       · simp [hr1]
+      · have hgt : rows > 1 := by rcases hrw with h | h <;> omega
+        simp [hr1, hgt]
     · have hco : cols = oc := by rcases hc with h | h; exact h; exact absurd h hc1
       subst hco
       simp only [hs, decide_true, Bool.true_and, ge_iff_le, if_true, hc1, if_false, laneOff, Tag.SCALAR, Tag.PACKED]
